@@ -16,6 +16,8 @@ func init() {
 	kinds["setorder"] = runSetOrder
 	kinds["scalar"] = runScalar
 	kinds["cedarvalue"] = runCedarValue
+	kinds["uidparse"] = runUIDParse
+	riskyKinds["uidparse"] = true
 	kinds["valuejson"] = runValueJSON
 }
 
@@ -241,6 +243,21 @@ func runScalar(payload []*Sx) *Sx {
 	panic("harness: scalar op")
 }
 
+// uidparse: <bytes> -> (ok xTYPE xID) | (err): EntityUID.UnmarshalCedar; UnmarshalBinary must agree
+func runUIDParse(payload []*Sx) *Sx {
+	b := []byte(payload[0].Str())
+	var u, u2 types.EntityUID
+	err := u.UnmarshalCedar(b)
+	err2 := u2.UnmarshalBinary(append([]byte{}, b...))
+	if (err == nil) != (err2 == nil) || u != u2 {
+		return L(A("text-and-binary-differ"))
+	}
+	if err != nil {
+		return L(A("err"))
+	}
+	return L(A("ok"), AS(string(u.Type)), AS(string(u.ID)))
+}
+
 // cedarvalue: <value> -> does the Cedar rendering of the value parse and evaluate to an equal value?
 func runCedarValue(payload []*Sx) *Sx {
 	v := valueFromSx(payload[0])
@@ -257,6 +274,20 @@ func runCedarValue(payload []*Sx) *Sx {
 	}
 	if !got.Equal(v) || !v.Equal(got) {
 		return L(A("rendering-evaluates-to-different-value"), AS(string(text)), valueToSx(got))
+	}
+	// an entity uid has a parser of its own (EntityUID.UnmarshalCedar / UnmarshalBinary): its printed form must read back too
+	if uid, ok := v.(types.EntityUID); ok {
+		var u2, u3 types.EntityUID
+		if err := u2.UnmarshalCedar(uid.MarshalCedar()); err != nil || u2 != uid {
+			return L(A("uid-text-does-not-read-back"), AS(string(text)))
+		}
+		bin, err := uid.MarshalBinary()
+		if err != nil || u3.UnmarshalBinary(bin) != nil || u3 != uid {
+			return L(A("uid-binary-does-not-read-back"), AS(string(text)))
+		}
+		if uid.String() != string(uid.MarshalCedar()) {
+			return L(A("uid-string-differs-from-cedar-text"), AS(uid.String()))
+		}
 	}
 	// rendering the reparsed value gives the same bytes
 	if !bytes.Equal(got.MarshalCedar(), text) {
